@@ -8,6 +8,12 @@ from pyvc.registry import make_db, RegCat, RegInfo, UNKNOWN_QT, UNKNOWN_UNIT
 from pyvc import symseq
 
 Q_MOD = "barril.units._quantity"
+S = z3.Select
+
+
+def caption_norm(cap):
+    return SStr("") if cap is SNone else cap
+
 LAZY_SLOTS = ("_hash", "_composing_units_joining_exponents")
 
 
@@ -208,3 +214,42 @@ def value_unchanged(I, ref, snap):
             return False
         conj.append(to_z3b(same_value(I, f[k], v)))
     return z3.And(*conj) if conj else True
+
+
+def fill_simple_fields(I, o, R, db, c, u_res, cap, st=None):
+    """make object o the simple quantity (c, u_res) — used by summaries (QI by the callee's contract)"""
+    P = I.P
+    st = st or R.snapshot()
+    qt = S(st["C_qt"], c)
+    tb = P.fresh("tobase", FnS)
+    alts = []
+    from .unit_database import getinfo_cases
+
+    for n, g, k, x in getinfo_cases(R, st, qt, u_res, True, True):
+        if k == "info":
+            alts.append(z3.And(g, tb == S(st["U_tb"], x)))
+    P.assume(z3.Or(*alts), "post:Quantity.__init__ (_tobase)")
+    m = P.alloc(HDict([(sname(c), SRef(P.alloc(HList([sname(u_res), SNum(1)], region="quantity-internal"))))], ordered=True, region="quantity-internal"))
+    f = o.fields
+    f["_unit_database"] = db
+    f["_unknown_unit_caption"] = caption_norm(cap)
+    f["_is_derived"] = SBool(False)
+    f["_category_info"] = RegCat(R, c)
+    f["_category_to_unit_and_exps"] = SRef(m)
+    f["_category"] = sname(c)
+    f["_quantity_type"] = sname(qt)
+    f["_unit"] = sname(u_res)
+    f["_tobase"] = SFn(tb)
+    f["_composing_units"] = sname(u_res)
+    f["_composing_categories"] = sname(c)
+    o.region = "quantity"
+    o.qinfo = {"kind": "simple", "c": c, "u": u_res, "key": None, "unknown": None, "entries": [(c, u_res, z3.IntVal(1))]}
+
+
+def new_simple_quantity(I, R, db, c, u_res, cap):
+    o = I.P.alloc(HObj(qclass(I), region="quantity"))
+    fill_simple_fields(I, o, R, db, c, u_res, cap)
+    R.on_cat(c)
+    return SRef(o)
+
+
